@@ -200,8 +200,9 @@ func (s *shard[K, V]) Contains(key K) bool {
 	s.l.RLock()
 	defer s.l.RUnlock()
 
-	_, ok := s.m[key]
-	return ok
+	// A placeholder registered by a waiter (Wait != nil) is not an added key.
+	v, ok := s.m[key]
+	return ok && v.Wait == nil
 }
 
 // Range calls f for each key-value pair in this shard.
